@@ -8,6 +8,7 @@ import (
 	"github.com/CrowdStrike/csproto"
 	gogoproto "github.com/gogo/protobuf/proto"
 	gogodesc "github.com/gogo/protobuf/protoc-gen-gogo/descriptor"
+	"google.golang.org/protobuf/encoding/protowire"
 	"google.golang.org/protobuf/proto"
 	"google.golang.org/protobuf/types/descriptorpb"
 	"google.golang.org/protobuf/types/known/durationpb"
@@ -436,4 +437,49 @@ func famNest(thorough bool) {
 			w.Emit(e)
 		}
 	}
+	// a payload the OWNING RUNTIME rejects, for every fixture type that csproto only knows through its runtime (no csproto.Unmarshaler):
+	// the error has to come back from DecodeNested ("an error from the nested message propagates to the caller")
+	seenType := map[string]bool{}
+	for _, c := range cases {
+		if c.fresh == nil {
+			continue
+		}
+		dst := c.fresh()
+		tn := fmt.Sprintf("%T", dst)
+		if _, own := dst.(csproto.Unmarshaler); own || c.fail || seenType[tn] {
+			continue
+		}
+		seenType[tn] = true
+		for pi, bad := range [][]byte{{0x0a, 0x05, 'a'}, {0x0a}, {0x08, 0x80}, {0x0f}} {
+			probe := c.fresh()
+			if csproto.Unmarshal(append([]byte{}, bad...), probe) == nil {
+				continue // this runtime accepts it for this type: nothing to propagate
+			}
+			ib := mkbuf(protowire.AppendBytes(protowire.AppendTag(nil, 7, protowire.BytesType), bad))
+			w.NextGroup()
+			d := newDecoder(ib)
+			doCall(d, ib, call{op: "Tag"}, true, []int{7, 2}, nil)
+			ne := &tr.Ev{C: "dec", Op: "NestedBad", P: d.Offset(), Mode: 0, K: c.flavour, Note: fmt.Sprintf("%s payload %d", tn, pi)}
+			var err error
+			func() {
+				defer func() {
+					if r := recover(); r != nil {
+						ne.St, ne.Note = "panic", fmt.Sprint(r)
+					}
+				}()
+				err = d.DecodeNested(c.fresh())
+			}()
+			if ne.St == "" {
+				if err != nil {
+					ne.St = "err"
+				} else {
+					ne.St = "ok"
+				}
+			}
+			ne.Off = d.Offset()
+			w.Emit(ne)
+			// the decoder is judged no further after a failed call
+		}
+	}
+
 }
